@@ -127,15 +127,22 @@ package utils
 
 // ---- error constructors never return nil ----
 
+// fileContentError(e): classification used by the start-up contracts (C03): e reports that the bytes found in a data
+// file are not what the writer left there (torn or reordered write). Only the contracts of functions that read data
+// files may assert it; errors made by the constructors below are by convention not of that class.
+//@ ghost func fileContentError(e iface) bool
+
 //@ func fmt.Errorf
 //@ trusted "stdlib: returns a non-nil error"
 //@ pure
 //@ ensures result != nil
+//@ ensures !fileContentError(result)
 
 //@ func errors.New
 //@ trusted "stdlib: returns a non-nil error"
 //@ pure
 //@ ensures result != nil
+//@ ensures !fileContentError(result)
 
 //@ func github.com/pkg/errors.Wrap
 //@ trusted "pkg/errors: nil iff the wrapped error is nil"
